@@ -4,6 +4,7 @@ Decided by abstract interpretation (zone domain, engine/zone.py) of every functi
 entry points: element accesses in range, loops with a ranking function, parsed integers bounded before they size an
 allocation or a loop, enum-indexed tables large enough; plus a def-use rule for regular expressions built from text."""
 import re
+import os
 from engine.util import *
 from engine import zone
 from engine.dbm import INF
@@ -86,6 +87,7 @@ def run(ck):
     rec = recursion_rule(ck, env)
     acc = accumulation_rule(ck, env)
     rawp = raw_pointer_rule(ck, env)
+    use_after_delete_rule(ck, F, fns_by_sig, env)
     if counts.get("alloc", 0) < MIN_ALLOC:
         if acc:
             # numbers are parsed by hand: the taint source of C14-O1 (the toInt family) is gone, so O1 has nothing to say
@@ -361,3 +363,86 @@ def raw_pointer_rule(ck, env):
         ck.ob("C14-O7", "(analysed functions)", True, "no raw character-pointer arithmetic or dereference in the %d analysed functions: text is handled through QString/QByteArray, whose accesses O4 proves" % len(scope),
               key="rawptr|none")
     return sites
+
+
+
+def use_after_delete_rule(ck, F, fns_by_sig, env):
+    """C14-O8: an object that was deleted is not used again.  Decided per function of the analysed scope on its flattened form (private helpers and lambdas
+    spliced in, so `drop(token)` with `delete p` inside is a delete of `token`): from a `delete v` on a local pointer variable v no use of v is reachable
+    without passing an assignment to v first.  A by-value parameter set to nullptr in a helper does not clear the caller's variable."""
+    from engine.cfg import Graph
+    from engine.facts import through_param
+    ck.rule("C14-O8", "no local pointer is used after `delete`: from every delete of a local pointer variable (directly or inside a spliced helper / lambda that received it by value) "
+                      "every path to a later use of that variable passes an assignment to it")
+    n_del, bad = 0, 0
+    for sig in sorted(env.scope):
+        f0 = fns_by_sig.get(sig)
+        if f0 is None or f0.body is None or f0.lambda_of:
+            continue
+        try:
+            f = F.flat(f0)
+        except Exception:
+            continue
+        dels = [n for n in f.all_nodes() if n.get("k") == "delete"]
+        if not dels:
+            continue
+        g = Graph(f)
+        for d in dels:
+            e = d.get("e") if isinstance(d.get("e"), dict) else (d.get("args") or [None])[0]
+            v = _bound_here(f, e) if isinstance(e, dict) else None
+            if not (isinstance(v, dict) and v.get("k") == "ref" and v.get("dk") in ("local", "param") and not v.get("inl_param")):
+                continue
+            n_del += 1
+            decl = v["decl"]
+            ds = g.site_of(d)
+            if ds is None:
+                continue
+            assigns, uses = [], []
+            for n in f.all_nodes():
+                if n.get("k") == "binop" and n.get("op") == "=" and isinstance(n.get("lhs"), dict) and skip_copies(n["lhs"]).get("k") == "ref" and skip_copies(n["lhs"]).get("decl") == decl:
+                    assigns.append(n)
+            a_lhs = {skip_copies(a["lhs"]).get("id") for a in assigns}
+            asites = {s_ for s_ in g.sites_of_nodes(assigns) if s_ is not None}
+            for n in f.all_nodes():
+                if n.get("k") == "ref" and n.get("decl") == decl and n.get("id") not in a_lhs and n.get("id") != v.get("id"):
+                    # the argument expression that was bound to the helper's parameter is the hand-over itself, not a later use
+                    uses.append(n)
+            later = []
+            for u in uses:
+                us = g.site_of(u)
+                if us is None:
+                    for a_ in f.ancestors(u):
+                        if g.site_of(a_) is not None:
+                            us = g.site_of(a_)
+                            break
+                if us is None or us == ds:
+                    continue
+                if us in g.reach([ds], blocked=asites, include_start=False):
+                    later.append(u)
+            if later:
+                bad += 1
+                ck.ob("C14-O8", sitestr(f, later[0]), False, "%s is deleted at line %s%s and used again here without having been given a new value: use after free on every run of this path, "
+                      "and a second delete when its owner is destroyed" % (v.get("name"), d.get("l"), " (inside a helper that received the pointer by value: setting the copy to nullptr does not clear the caller's variable)" if skip_copies(e).get("inl_param") else ""),
+                      key="use-after-delete|%s|%s" % (strip_tmpl(f.name).split("::")[-1], v.get("name")))
+    ck.ob("C14-O8", "(analysed functions)", not bad, "%d deletes of local pointer variables in the analysed scope, none followed by a use of the variable" % n_del if not bad else
+          "%d local pointer(s) used after delete" % bad, key="use-after-delete|summary")
+
+
+
+def _bound_here(f, e):
+    """the argument a spliced helper's parameter stands for IN THIS flattened function (the registry of parameter bindings is shared by every flattening a
+    function takes part in; only a binding whose node belongs to f's own tree counts)"""
+    from engine.inline import PARAM_BIND
+    n = skip_copies(e)
+    for _ in range(4):
+        if not (isinstance(n, dict) and n.get("k") == "ref" and n.get("inl_param")):
+            break
+        cands = []
+        for b in PARAM_BIND.get(n.get("decl")) or []:
+            b0 = skip_copies(b)
+            if isinstance(b0, dict) and f.nodes.get(b0.get("id")) is b0:
+                cands.append(b0)
+        if len(cands) != 1:
+            return None
+        n = cands[0]
+    return n
